@@ -27,7 +27,9 @@ RULE = ("seeded op sequences on direct and bucketed k-mer tables (alphabets of 2
         "both table kinds (match and match_table), and long k-mers (DNA k=16,17,20,31; 20 letters k=7,8,13: "
         "create_kmers vs direct fuse, bucketed match/count/match_table), similar_kmers itself (`simk`), min-code "
         "threshold boundaries (compression dividing / not dividing the range), cached vs plain syncmer selector "
-        "(`csynck`) and table __eq__ across content / order / bucket number / kind / spacing. non-trivial = at least one non-empty result or an error branch; "
+        "(`csynck`) and table __eq__ across content / order / bucket number / kind / spacing; every ndarray argument "
+        "is passed in varying memory layouts and dtypes (strided, Fortran, transposed, column slices, read-only, "
+        "int32/uint32/uint64). non-trivial = at least one non-empty result or an error branch; "
         "distinct = different op list")
 TRUSTED = ["numpy fancy indexing / argsort / where, pickle: modelled by documented semantics",
            "ScoreThresholdRule.similar_kmers: the iterative while-loop is modelled as the depth-first recursion it performs "
@@ -54,7 +56,7 @@ LEVEL_TEXT = ("proof for all inputs (Lean 4, no size bound, no sorry): the two-p
               "BucketKmerTable.__getitem__ only for k-mer codes < 2^32 (defect witness otherwise); the float64 "
               "rounding of the min-code threshold is an assumption pinned by a boundary correspondence stream; that "
               "the while-loop of similar_kmers performs the modelled DFS, and that FrequencyPermutation's stable "
-              "argsort is the rank order, are tied by correspondence + brute-force oracle. Six .pyx defects are "
+              "argsort is the rank order, are tied by correspondence + brute-force oracle. Seven .pyx defects (incl. a SIGSEGV when a constructor fails inside its count pass) are "
               "modelled as written (_defect witnesses) and listed as known findings.")
 LEVEL_NOTE = ("ScoreThresholdRule.similar_kmers, numpy and pickle are exercised (oracle / correspondence), not proved; "
               "C memory safety beyond the proved capacity invariant is trusted")
@@ -69,6 +71,7 @@ K_MINMAX = "C10/minimizer/order-value-int64-max"
 K_MINCODE_BOOL = "C10/mincode/returns-boolean-mask"
 K_FUSE = "C10/fuse/code-equals-alphabet-length"
 K_EQ_SPACING = "C10/eq/spacing-ignored"
+K_CTOR_CRASH = "C10/ctor/crash-after-partial-count"
 
 
 # ---------------------------------------------------------------- small formatting helpers (shared canonical text)
@@ -352,13 +355,18 @@ def _run_ops(ops):
     import zlib
     LAY = {"on": True, "op": "", "i": 0}
 
-    def L(a):
+    def L(a, rejectable=True):
         """The same values in another memory layout / dtype (chosen deterministically per op and argument):
-        the property does not depend on how an argument array is laid out in memory."""
+        the property does not depend on how an argument array is laid out in memory.
+        rejectable=False: only layouts the typed memoryviews accept (strides), no read-only / other dtype -
+        used for the 2nd, 3rd, ... k-mer array of from_kmers / from_kmer_selection, where a rejection after the
+        first array has been counted crashes the interpreter (known finding C10/ctor/crash-after-partial-count)."""
         if not LAY["on"] or a.size == 0:
             return a
         LAY["i"] += 1
         h = zlib.crc32(f"{LAY['op']}#{LAY['i']}".encode())
+        if not rejectable and a.ndim == 1 and h % 7 in (3, 5):
+            h += 1
         if a.ndim == 1:
             v = h % 7
             if v == 1:                                   # every second element of a longer buffer
@@ -408,11 +416,11 @@ def _run_ops(ops):
             return a
         return a
 
-    def i64(xs):
-        return L(np.array(xs, dtype=np.int64))
+    def i64(xs, rejectable=True):
+        return L(np.array(xs, dtype=np.int64), rejectable)
 
-    def boolarr(xs):
-        return L(np.array(xs, dtype=bool))
+    def boolarr(xs, rejectable=True):
+        return L(np.array(xs, dtype=bool), rejectable)
 
     def mkseq(codes):
         code = L(np.array(codes, dtype=np.uint8))
@@ -500,14 +508,16 @@ def _run_ops(ops):
                 sp_arr = None if st["sp"] is None else spacing_array(st["sp"])
                 t = cls.from_sequences(st["k"], seqs, rid, ms, alphabet=st["base"], spacing=sp_arr, **kw)
             elif c == "kms":
-                kms = [g.add(i64(x)) for x in _parse_lists(w[3])]
+                kms = [g.add(i64(x, rejectable=(j == 0))) for j, x in enumerate(_parse_lists(w[3]))]
                 rid = None if w[2] == "-" else g.add(i64(_parse_nats(w[2])))
                 ms = _parse_masks(w[4], len(kms))
-                ms = None if ms is None else [None if m is None else g.add(boolarr(m)) for m in ms]
+                # a read-only mask is rejected inside the count pass as well (same crash class for j > 0)
+                ms = None if ms is None else [None if m is None else g.add(boolarr(m, rejectable=(j == 0)))
+                                              for j, m in enumerate(ms)]
                 t = cls.from_kmers(ka, kms, rid, ms, **kw)
             else:
                 poss = [g.add(i64(x)) for x in _parse_lists(w[3])]
-                kms = [g.add(i64(x)) for x in _parse_lists(w[4])]
+                kms = [g.add(i64(x, rejectable=(j == 0))) for j, x in enumerate(_parse_lists(w[4]))]
                 rid = None if w[2] == "-" else g.add(i64(_parse_nats(w[2])))
                 t = cls.from_kmer_selection(ka, poss, kms, rid, **kw)
             modified = g.changed() or (sp_arr is not None and sp_arr.tolist() != list(st["sp"]))
@@ -651,6 +661,8 @@ def oracle(case):
         return _oracle_similarity(case)
     if case.get("kind") == "mincode-dtype":
         return _oracle_mincode_dtype(case)
+    if case.get("kind") == "ctor-reject":
+        return _oracle_ctor_reject(case)
     if not case.get("ops"):
         return []
     out = _impl(case)
@@ -1010,6 +1022,43 @@ def _oracle_mincode_dtype(case):
         return [(K_MINCODE_BOOL, f"MincodeSelector.select_from_kmers({case['kmers']}) returned a boolean mask, documented: index array")]
     if r[0] != "ok":
         return [("C10/mincode/crash", str(r))]
+    return []
+
+
+def _oracle_ctor_reject(case):
+    """A k-mer array the constructor cannot accept (wrong dtype, read-only buffer) must be rejected with an
+    exception wherever it stands in the list - never crash the interpreter."""
+    from common import sandbox
+    _preload()
+
+    def f():
+        import numpy as np
+
+        import biotite.sequence as bseq
+        import biotite.sequence.align as align
+        ka = align.KmerAlphabet(bseq.LetterAlphabet("ABCD"), 3)
+        arrs = [np.array(a, dtype=np.int64) for a in case["kmers"]]
+        bad_i = case["bad"]
+        if case["how"] == "readonly":
+            arrs[bad_i].setflags(write=False)
+        else:
+            arrs[bad_i] = arrs[bad_i].astype(np.int32)
+        kw = {} if case["nb"] is None else {"n_buckets": case["nb"]}
+        cls = align.KmerTable if case["nb"] is None else align.BucketKmerTable
+        try:
+            if case["ctor"] == "from_kmers":
+                cls.from_kmers(ka, arrs, **kw)
+            else:
+                cls.from_kmer_selection(ka, [np.arange(len(a)) for a in arrs], arrs, **kw)
+        except (ValueError, TypeError) as e:
+            import gc
+            gc.collect()
+            return "rejected:" + type(e).__name__
+        return "accepted"
+    r = sandbox.run_forked(f)
+    if r[0] == "crash":
+        key = K_CTOR_CRASH if case["bad"] > 0 else "C10/ctor/crash"
+        return [(key, f"{case}: the interpreter died with signal {r[1]} instead of raising")]
     return []
 
 
@@ -1470,6 +1519,10 @@ def cases(rng, tier):
         yield _mincode_boundary_case(rng)
     for _ in range(60 if tier == "quick" else 500):
         yield _eq_case(rng)
+    for _ in range(12 if tier == "quick" else 60):
+        arrs = [[rng.randrange(64) for _ in range(rng.randint(1, 4))] for _ in range(rng.randint(1, 3))]
+        yield {"kind": "ctor-reject", "kmers": arrs, "bad": rng.randrange(len(arrs)), "how": rng.choice(["dtype", "readonly"]),
+               "nb": rng.choice([None, 1, 3]), "ctor": rng.choice(["from_kmers", "from_kmer_selection"])}
 
 
 def corpus():
@@ -1510,7 +1563,7 @@ def corpus():
 
 
 def nontrivial(case, impl_out):
-    if case.get("kind") in ("similarity", "mincode-dtype"):
+    if case.get("kind") in ("similarity", "mincode-dtype", "ctor-reject"):
         return True
     for line in impl_out or []:
         if line.startswith("ERR") or (line.startswith("ok ") and ":" in line):
